@@ -201,25 +201,30 @@ Qed.
 Lemma pad_to_4_nil : pad_to 4 [] = [].
 Proof. reflexivity. Qed.
 
-(* BinArchive::serialize on an archive without strings, pointers and c-strings always succeeds *)
-Lemma bin_serialize_plain_ok kf m a : a_text a = [] -> a_ptrs a = [] -> a_cstrs a = [] -> exists f, BinFormat.serialize_k kf m a = Ok f.
+(* BinArchive::serialize on an archive without strings, pointers and c-strings succeeds, unless the image would exceed the
+   32-bit sizes of the format: then it is rejected with an error (fix 524d15f, finding F25) - never a panic *)
+Lemma bin_serialize_plain_ok kf m a : a_text a = [] -> a_ptrs a = [] -> a_cstrs a = [] ->
+  (exists f, BinFormat.serialize_k kf m a = Ok f) \/ BinFormat.serialize_k kf m a = Err EOther.
 Proof.
   intros Ht Hp Hc. unfold BinFormat.serialize_k. rewrite Ht, Hp, Hc.
   cbn [isort fold_right cstr_pool app poke_all bind p_raw pool_empty]. rewrite pad_to_4_nil.
   destruct (emit_labels _ pool_empty []) as [tpool1 raw_labels].
   cbn [isort fold_right emit_text bind map concat app length].
+  match goal with |- context [guard ?c EOther] => destruct c end; cbn [guard bind]; [|right; reflexivity].
+  left.
   unfold add_w. change (lenN []) with 0. unfold trunc_w at 1 2. rewrite N.mod_0_l by (unfold maxw; lia). rewrite N.add_0_r.
   destruct (N.ltb_spec (size a mod maxw 32) (maxw 32)) as [_|C]; [cbn [bind]; eexists; reflexivity|].
   exfalso. pose proof (N.mod_lt (size a) (maxw 32)). unfold maxw in *. lia.
 Qed.
 
-Theorem text_serialize_ok : forall kf m fmt e t, exists f, TextFormat.serialize kf m fmt e t = Ok f.
+Theorem text_serialize_ok_or_too_large : forall kf m fmt e t,
+  (exists f, TextFormat.serialize kf m fmt e t = Ok f) \/ TextFormat.serialize kf m fmt e t = Err EOther.
 Proof.
   intros kf m fmt e t. unfold TextFormat.serialize. rewrite build_archive_spec. cbn [bind].
   apply bin_serialize_plain_ok; reflexivity.
 Qed.
 Theorem text_serialize_no_panic : forall kf m fmt e t k, TextFormat.serialize kf m fmt e t <> Panic k.
-Proof. intros kf m fmt e t k. destruct (text_serialize_ok kf m fmt e t) as [f ->]. discriminate. Qed.
+Proof. intros kf m fmt e t k. destruct (text_serialize_ok_or_too_large kf m fmt e t) as [[f ->]| ->]; discriminate. Qed.
 
 (* anything accepted can be re-serialized without panicking (either arithmetic mode, either endianness) *)
 Theorem text_reserialize_no_panic : forall fmt a t, from_archive fmt a = Ok t ->
